@@ -1,6 +1,7 @@
 package checks
 
 import (
+	"sync/atomic"
 	"fmt"
 	"os"
 	"path/filepath"
@@ -107,8 +108,9 @@ type c20Stats struct {
 }
 
 func runC20(r *vc.Run, replay string) {
-	r.Rule = "one -race client; rounds of N concurrent global transactions {AT 1-3 statements, XA autocommit statement, TCC prepare, AT+TCC} x {commit, rollback} on private rows of per-round tables (fresh tables every round: concurrent metadata loads), pools smaller than N, the coordinator driving phase two of finished transactions concurrently, the server closing idle pooled connections between rounds; verdicts: no race report whose accessing stacks contain a seata-go frame (reports deduplicated by the first seata-go frame of each stack), every transaction returns within 120 s and every phase-two request is answered, after the last round (5 s of quiescence) no pooled connection is in use and the goroutine count has not grown by more than max(15, transactions/4) over the count after the warm-up round; distinct_nontrivial = distinct (round, kind, outcome) signatures of finished transactions"
+	r.Rule = "one -race client; rounds of N concurrent global transactions {AT 1-3 statements, XA autocommit statement, TCC prepare, AT+TCC} x {commit, rollback} on private rows of per-round tables (fresh tables every round: concurrent metadata loads), pools smaller than N, the coordinator driving phase two of finished transactions concurrently (every third AT / TCC branch request delivered three times), the server closing idle pooled connections between rounds; verdicts: no race report whose accessing stacks contain a seata-go frame (reports deduplicated by the first seata-go frame of each stack), every transaction returns within 120 s and every phase-two request is answered, after the last round (5 s of quiescence) no pooled connection is in use and the goroutine count has not grown by more than max(15, transactions/4) over the count after the warm-up round; distinct_nontrivial = distinct (round, kind, outcome) signatures of finished transactions"
 	r.Assumptions = []string{"the race detector only sees interleavings that happened; GORACE halt_on_error=0 so that one report does not hide the others", "goroutines of the race runtime, database/sql and getty are part of the steady state measured after the warm-up round"}
+	var redeliveryHangs int32
 	workers, rounds := 24, 4
 	if r.Tier == "thorough" {
 		workers, rounds = 48, 30
@@ -222,7 +224,7 @@ func runC20(r *vc.Run, replay string) {
 				}
 				// phase two, concurrently with the transactions still running
 				commit := p.outcome == "nil" && res.Returned == "nil"
-				unanswered := 0
+				unanswered, redeliveredUnanswered := 0, 0
 				if res.XidIn != "" {
 					// like the coordinator: a request that got no answer (the manager failed, e.g. on a pooled connection
 					// the server had closed) is sent again; three unanswered attempts count
@@ -257,12 +259,38 @@ func runC20(r *vc.Run, replay string) {
 						}
 						if !answered {
 							unanswered++
+						} else if b.ID%3 == 0 && b.Type != 3 && atomic.LoadInt32(&redeliveryHangs) < 3 {
+							// the coordinator did not get the answer and delivers the request again, twice (AT and TCC; a finished XA
+							// branch answers a repeated request with the database's XAER_NOTA and the manager stays silent, which
+							// no property forbids - DESIGN §8.3)
+							for dup := 0; dup < 2; dup++ {
+								s := w.TC.WaitSession(b.Resource, 2*time.Second)
+								if s == nil {
+									break
+								}
+								_, rch, err := w.TC.Request(s, faketc.BranchEndReq(commit, b), 0)
+								if err != nil {
+									continue
+								}
+								select {
+								case <-rch:
+									mu.Lock()
+									r.Count("redelivered_phase_two_requests_answered", 1)
+									mu.Unlock()
+								case <-time.After(6 * time.Second):
+									redeliveredUnanswered++
+									atomic.AddInt32(&redeliveryHangs, 1)
+								}
+							}
 						}
 					}
 				}
 				mu.Lock()
 				r.Case(fmt.Sprintf("round=%d|kind=%s|outcome=%s|returned=%s", round, p.kind, p.outcome, res.Returned), map[string]interface{}{"name": p.sc.Name, "steps": res.Steps})
 				r.Count("transactions_finished", 1)
+				if redeliveredUnanswered > 0 {
+					r.Violate(&vc.Violation{Clause: "phase-two-unanswered", Shape: "p2-redelivered|" + p.kind, Features: map[string]string{"kind": p.kind, "outcome": p.outcome, "redelivered": "true"}, Detail: fmt.Sprintf("%d redelivered phase-two requests of %s (%s, commit=%v) got no answer within 6 s although the first delivery had been answered", redeliveredUnanswered, p.sc.Name, p.kind, commit), Case: p.sc})
+				}
 				if unanswered > 0 {
 					r.Violate(&vc.Violation{Clause: "phase-two-unanswered", Shape: "p2|" + p.kind, Features: map[string]string{"kind": p.kind, "outcome": p.outcome}, Detail: fmt.Sprintf("%d phase-two requests of %s (%s, commit=%v) stayed unanswered in three attempts under concurrency", unanswered, p.sc.Name, p.kind, commit), Case: p.sc, History: map[string]interface{}{"steps": res.Steps, "returned": res.Returned + " " + res.Err}})
 				}
